@@ -23,6 +23,19 @@ _REAL = {
 }
 
 
+_AOT = [None]
+
+
+def _aotools_dir():
+    if _AOT[0] is None:
+        try:
+            import aotools
+            _AOT[0] = os.path.dirname(os.path.abspath(aotools.__file__)) + os.sep
+        except Exception:
+            _AOT[0] = "\0"
+    return _AOT[0]
+
+
 class SimEnv(object):
     """simulated entropy source + clock. Entropy is a counter hash of the run's entropy key: every
     request returns a different value, the same sequence in every replay. The clock is frozen unless a
@@ -63,22 +76,46 @@ class SimEnv(object):
         return self.now
 
     def install(self):
+        """entropy is simulated for everybody (harmless); the clock, sleep and pid are simulated only for callers inside
+        aotools code (whatever way they imported `time`): the standard library - multiprocessing polls with sleep and
+        monotonic deadlines - keeps the real clock, so a tree that uses raw processes or queues cannot hang here"""
+        import sys
         _bg.randbits = self.randbits
         os.urandom = self.urandom
-        os.getpid = lambda: 4242
-        _time.time = self._t
-        _time.monotonic = self._t
-        _time.perf_counter = self._t
-        _time.process_time = self._t
-        _time.time_ns = lambda: int(self._t() * 1e9)
-        _time.monotonic_ns = lambda: int(self._t() * 1e9)
-        _time.perf_counter_ns = lambda: int(self._t() * 1e9)
-        _time.process_time_ns = lambda: int(self._t() * 1e9)
+        aot = _aotools_dir()
+        real = _REAL["time"]
+        env = self
 
-        def _sleep(s):
-            self.sleeps += 1
-            self.jump(max(0.0, float(s)))
-        _time.sleep = _sleep
+        def scoped(name, fake):
+            realf = real[name]
+
+            def f(*a):
+                try:
+                    inside = sys._getframe(1).f_code.co_filename.startswith(aot)
+                except Exception:
+                    inside = False
+                return fake(*a) if inside else realf(*a)
+            f.__name__ = name
+            return f
+
+        def _sleep(s_):
+            env.sleeps += 1
+            env.jump(max(0.0, float(s_)))
+        for n in ("time", "monotonic", "perf_counter", "process_time"):
+            if n in real:
+                setattr(_time, n, scoped(n, lambda: env._t()))
+            if n + "_ns" in real:
+                setattr(_time, n + "_ns", scoped(n + "_ns", lambda: int(env._t() * 1e9)))
+        _time.sleep = scoped("sleep", _sleep)
+        realpid = _REAL["getpid"]
+
+        def getpid():
+            try:
+                inside = sys._getframe(1).f_code.co_filename.startswith(aot)
+            except Exception:
+                inside = False
+            return 4242 if inside else realpid()
+        os.getpid = getpid
 
     @staticmethod
     def uninstall():
